@@ -69,7 +69,21 @@ def run(res, drv, tier, seed):
             if prim.startswith('mech') or prim == 'gem':
                 mech = M.Mechanism(1.0, 0.0, False, prng=fake)
                 if prim == 'mech':
-                    mech.exponential_mechanism(np.array(q), eps, sens)
+                    # a float64 array (or a basic-slice view of one) that the caller keeps and selects from again: the LAST draw is the
+                    # one compared with the definition below, and the caller's scores must be left alone
+                    if r.random() < 0.5:
+                        big = np.zeros(len(q) + 2, dtype=np.float64)
+                        big[1:-1] = q
+                        arr = big[1:-1]
+                    else:
+                        arr = np.array(q, dtype=np.float64)
+                    keep = arr.copy()
+                    for _k in range(r.choice([1, 2, 3])):
+                        mech.exponential_mechanism(arr, eps, sens)
+                    if not np.array_equal(arr, keep):
+                        res.violation('failing-input', f'{prim}: the caller\'s quality vector was modified by the draw ({keep[:4]} -> {arr[:4]}); a repeated draw is mis-calibrated',
+                                      {'request': {'prim': prim, 'q': q, 'eps': eps, 'sens': sens}}, key='em:mutates-input')
+                        continue
                 elif prim == 'mech-dict':
                     keys = [f'k{i}' for i in range(len(q))]
                     got_key = mech.exponential_mechanism(dict(zip(keys, q)), eps, sens)
@@ -228,6 +242,17 @@ def scales(res, drv, r, M, tier):
             want = ('laplace', b) if lap_std < gau_std else ('normal', s)
             if (kind, sc) != (want[0], float(want[1])):
                 bad = f'best_noise_distribution picks {kind} scale {sc}; smaller std is {want}'
+        if not bad:
+            # a second mechanism object with the OTHER adjacency notion asks for the same scales in the same process
+            mech2 = M.Mechanism(1.0, 0.0, not bounded, prng=mechs.FakePrng())
+            f2 = 1.0 if bounded else 2.0
+            b2, s2 = mech2.laplace_noise_scale(d1, eps), mech2.gaussian_noise_scale(d2, eps, delta)
+            b3, s3 = mech.laplace_noise_scale(d1, eps), mech.gaussian_noise_scale(d2, eps, delta)
+            if not close(b2, f2 * d1 / eps, 1e-12, 0) or not close(s2, f2 * d2 * sig_ana, 1e-12, 0):
+                bad = (f'a second mechanism with bounded={not bounded} asking for the same scales after one with bounded={bounded}: laplace {b2} (expected {f2 * d1 / eps}), '
+                       f'gaussian {s2} (expected {f2 * d2 * sig_ana})')
+            elif not close(b3, b, 1e-12, 0) or not close(s3, s, 1e-12, 0):
+                bad = f'the first mechanism asked again after the second one: laplace {b3} (was {b}), gaussian {s3} (was {s})'
         if bad:
             res.violation('failing-input', bad, {'request': canon, 'expected': bad}, key='scale:helpers')
             continue
